@@ -198,7 +198,8 @@ func genFuzz(g *genCtx) {
 				// long tails: thousands of (mostly empty) parameters under distinct tags - work and memory stay proportional
 				if it == 0 {
 					for _, cnt := range []int{600, 4000, 16000} {
-						if cnt > 4000 && !g.thorough() && tn[:6] != "smgp30" {
+						// (judging a tail of n parameters costs TLC n^2: the longest ones only where both parsers differ, and in the thorough tier)
+						if cnt > 600 && tn[:6] != "smgp30" || cnt > 4000 && !g.thorough() {
 							continue
 						}
 						m := append([]byte{}, fixed...)
